@@ -3,6 +3,7 @@ pub mod c03;
 pub mod c04;
 pub mod c05;
 pub mod c07;
+pub mod c09;
 pub mod c12;
 pub mod c13;
 
@@ -23,6 +24,7 @@ pub fn dispatch(ctx: &Ctx, replay: Option<&str>) -> i32 {
         "C04" => p!(c04),
         "C05" => p!(c05),
         "C07" => p!(c07),
+        "C09" => p!(c09),
         "C12" => p!(c12),
         "C13" => p!(c13),
         other => {
